@@ -19,6 +19,7 @@ underlying quantum state.
 The Base class defines an API which all compiler implementations should follow
 """
 
+import copy
 import logging
 from abc import ABC, abstractmethod
 
@@ -93,7 +94,8 @@ class CompilerBase(ABC):
             assert (
                 initial_state.n_qubits == circuit.n_quantum
             ), "the number of qubits in initial state must match the circuit"
-            state_data = initial_state.rep_data.data
+            # work on a copy: the caller's initial state must not be evolved by the compilation
+            state_data = copy.deepcopy(initial_state.rep_data.data)
         else:
             state_data = circuit.n_quantum
 
